@@ -35,13 +35,13 @@ S == 0               \* sentinel item in the queue
 None == 0            \* lock free / no task
 CId(c) == 100 + c    \* lock-holder id of client c (workers hold the lock under their own id)
 
-VARIABLES maxT, minT, gated,                            \* configuration (fixed by Init); gated: tasks whose body blocks until released
+VARIABLES maxT, minT, gated, qcap,                            \* configuration (fixed by Init); gated: tasks whose body blocks until released
           stop, q, unfinished, lock, nbT, nbA, nbP, tlist,
           wpc, wtask, wclean, wloc,
           ts, execs, released,
           cpc, cop, cl, nops, phase, obs
 
-cfgV  == <<maxT, minT, gated>>
+cfgV  == <<maxT, minT, gated, qcap>>
 poolV == <<stop, q, unfinished, lock, nbT, nbA, nbP, tlist>>
 workV == <<wpc, wtask, wclean, wloc>>
 taskV == <<ts, execs, released>>
@@ -51,8 +51,8 @@ vars  == <<cfgV, poolV, workV, taskV, ctlV>>
 Cl0 == [n |-> 0, k |-> 0, i |-> 0, w |-> {}, snap |-> {}, sawstop |-> FALSE]
 Obs0 == [joinRet |-> "none", joinSnap |-> {}, clean |-> TRUE]
 
-InitWith(mx, mn, g) ==
-  /\ maxT = mx /\ minT = mn /\ gated = g
+InitWithCap(mx, mn, g, cap) ==
+  /\ maxT = mx /\ minT = mn /\ gated = g /\ qcap = cap       \* qcap: queue_size of the task queue (0 = unbounded)
   /\ stop = TRUE /\ q = <<>> /\ unfinished = 0 /\ lock = None
   /\ nbT = 0 /\ nbA = 0 /\ nbP = 0 /\ tlist = {}
   /\ wpc = [w \in W |-> "unborn"] /\ wtask = [w \in W |-> None] /\ wclean = [w \in W |-> FALSE]
@@ -63,12 +63,15 @@ InitWith(mx, mn, g) ==
   /\ phase = "stopped"
   /\ obs = [c \in Clients |-> Obs0]
 
+InitWith(mx, mn, g) == InitWithCap(mx, mn, g, 0)
+HasRoom == qcap = 0 \/ Len(q) < qcap
+
 --------------------------------------------------------------------------
 (* clients *)
 
 Ops(c) == (IF c = 1 THEN {<<"start">>, <<"stop">>} ELSE {})
           \cup (IF WithClear /\ c = 1 THEN {<<"clear">>} ELSE {})
-          \cup {<<"join">>, <<"joint">>}
+          \cup {<<"join">>, <<"joint">>, <<"joint0">>}          \* join(), join(timeout > 0), join(0)
           \cup {<<"enq", t>> : t \in {t \in Tasks : ts[t] = "new"}}
           \cup (IF c = 1 THEN {<<"release", t>> : t \in {t \in gated : t \notin released}} ELSE {})
 
@@ -81,7 +84,7 @@ Fetch(c, op) ==
   /\ op[1] = "enq" => \A d \in Clients \ {c} : ~(cpc[d] \in {"e1"} /\ cop[d] = op)
   /\ cop' = [cop EXCEPT ![c] = op] /\ nops' = [nops EXCEPT ![c] = @ + 1]
   /\ Goto(c, CASE op[1] = "start" -> "s1" [] op[1] = "stop" -> "p1" [] op[1] = "join" -> "j1"
-               [] op[1] = "joint" -> "j1" [] op[1] = "enq" -> "e1" [] op[1] = "release" -> "r1" [] op[1] = "clear" -> "p6")
+               [] op[1] \in {"joint", "joint0"} -> "j1" [] op[1] = "enq" -> "e1" [] op[1] = "release" -> "r1" [] op[1] = "clear" -> "p6")
   /\ phase' = IF op[1] = "start" /\ phase = "stopped" THEN "starting" ELSE phase
   /\ SetCl(c, [Cl0 EXCEPT !.snap = {t \in Tasks : ts[t] # "new"}])
   /\ obs' = [obs EXCEPT ![c] = [Obs0 EXCEPT !.clean = (phase = "running")]]
@@ -156,11 +159,23 @@ S6a(c) == SpawnGo(c, "s6a", "s6b", "s6")
 S6b(c) == SpawnFinish(c, "s6b", "s6")
 
 \* ---- enqueue(t)
+\* queue.put(item, True, timeout) is called with the pool lock held: on a full bounded queue the client waits *inside*
+\* the critical section until a worker makes room or the time-out raises queue.Full (the task is then not accepted)
 E1(c) == /\ cpc[c] = "e1" /\ lock = None                      \* acquire + queue.put
-         /\ lock' = CId(c) /\ q' = Append(q, cop[c][2]) /\ unfinished' = unfinished + 1
-         /\ ts' = [ts EXCEPT ![cop[c][2]] = "queued"]
-         /\ Goto(c, "e2")
+         /\ IF HasRoom
+            THEN /\ lock' = CId(c) /\ q' = Append(q, cop[c][2]) /\ unfinished' = unfinished + 1
+                 /\ ts' = [ts EXCEPT ![cop[c][2]] = "queued"]
+                 /\ Goto(c, "e2")
+            ELSE /\ lock' = CId(c) /\ Goto(c, "e1w") /\ UNCHANGED <<q, unfinished, ts>>      \* acquire, then block in put()
          /\ UNCHANGED <<cfgV, stop, nbT, nbA, nbP, tlist, workV, execs, released, cop, cl, nops, phase, obs>>
+E1w(c) == /\ cpc[c] = "e1w" /\ lock = CId(c)
+          /\ \/ /\ HasRoom                                          \* a worker has dequeued: the put goes through
+                /\ q' = Append(q, cop[c][2]) /\ unfinished' = unfinished + 1
+                /\ ts' = [ts EXCEPT ![cop[c][2]] = "queued"] /\ Goto(c, "e2")
+             \/ /\ ~HasRoom /\ Goto(c, "e1x") /\ UNCHANGED <<q, unfinished, ts>>      \* time-out: queue.Full
+          /\ UNCHANGED <<cfgV, stop, lock, nbT, nbA, nbP, tlist, workV, execs, released, cop, cl, nops, phase, obs>>
+E1x(c) == /\ cpc[c] = "e1x" /\ lock = CId(c) /\ lock' = None /\ Ret(c)   \* the exception leaves the with block: release
+          /\ UNCHANGED <<cfgV, stop, q, unfinished, nbT, nbA, nbP, tlist, workV, taskV, cl, phase, obs>>
 E2(c) == /\ cpc[c] = "e2" /\ lock = CId(c)                     \* nb_pending += 1 ; growth rule
          /\ nbP' = nbP + 1
          /\ IF nbP + 1 > nbT /\ nbT < maxT
@@ -208,9 +223,12 @@ P3(c) == /\ cpc[c] = "p3" /\ lock = None                     \* acquire ; n := l
          /\ UNCHANGED <<cfgV, stop, q, unfinished, nbT, nbA, nbP, tlist, workV, taskV, cop, nops, phase, obs>>
 P3b(c) == /\ cpc[c] = "p3b" /\ lock = CId(c)
           /\ IF cl[c].i < cl[c].n
-             THEN /\ q' = Append(q, S) /\ unfinished' = unfinished + 1       \* put(sentinel)
-                  /\ SetCl(c, [cl[c] EXCEPT !.i = @ + 1])
-                  /\ UNCHANGED <<lock, cpc>>
+             THEN IF HasRoom
+                  THEN /\ q' = Append(q, S) /\ unfinished' = unfinished + 1       \* put(sentinel)
+                       /\ SetCl(c, [cl[c] EXCEPT !.i = @ + 1])
+                       /\ UNCHANGED <<lock, cpc>>
+                  ELSE /\ SetCl(c, [cl[c] EXCEPT !.i = cl[c].n])                 \* queue.Full (time-out): "pass", no more sentinels
+                       /\ UNCHANGED <<q, unfinished, lock, cpc>>
              ELSE /\ SetCl(c, [cl[c] EXCEPT !.w = tlist]) /\ lock' = None    \* copy list ; release
                   /\ Goto(c, "p4") /\ UNCHANGED <<q, unfinished>>
           /\ UNCHANGED <<cfgV, stop, nbT, nbA, nbP, tlist, workV, taskV, cop, nops, phase, obs>>
@@ -245,7 +263,7 @@ P8(c) == /\ cpc[c] = "p8" /\ unfinished = 0 /\ Ret(c) /\ phase' = EndPhase(c)
          /\ UNCHANGED <<cfgV, poolV, workV, taskV, cl>>
 
 ClientStep(c) == Release(c) \/ S1(c) \/ S2(c) \/ S3(c) \/ S4(c) \/ S5(c) \/ S5a(c) \/ S5b(c) \/ S6(c) \/ S6a(c) \/ S6b(c)
-                 \/ E1(c) \/ E2(c) \/ E2a(c) \/ E3(c) \/ J1(c) \/ J2(c)
+                 \/ E1(c) \/ E1w(c) \/ E1x(c) \/ E2(c) \/ E2a(c) \/ E3(c) \/ J1(c) \/ J2(c)
                  \/ P1(c) \/ P2(c) \/ P3(c) \/ P3b(c) \/ P4(c) \/ P5(c) \/ P6(c) \/ P6b(c) \/ P6c(c) \/ P7(c) \/ P8(c)
 Client(c) == (\E op \in Ops(c) : Fetch(c, op)) \/ ClientStep(c)
 
